@@ -17,7 +17,6 @@ Python builds, calls and projects; every verdict is a TLA+ definition evaluated 
 import hashlib
 import json
 import os
-import random
 from multiprocessing import get_context
 
 from .. import tlc
@@ -39,7 +38,7 @@ class U:
     def __init__(self):
         from unified_planning.shortcuts import (
             BoolType, IntType, UserType, Fluent, GlobalStartTiming, GlobalEndTiming, StartTiming, EndTiming,
-            ClosedTimeInterval, TimePointInterval, FluentExp, GT, Int, TRUE, Always, Sometime, Not,
+            ClosedTimeInterval, TimePointInterval, FluentExp, GT, Int, TRUE, Always, Sometime,
         )
         import unified_planning as up
 
@@ -47,7 +46,6 @@ class U:
         self.Bool, self.Int = BoolType(), IntType()
         self.T = UserType(PFX + "T")
         self.fx = Fluent(PFX + "x", IntType())
-        self.fx0 = self.fx  # same signature with / without default: the default lives in the problem
         self.fb = Fluent(PFX + "b", BoolType())
         self.fn = Fluent(PFX + "n", BoolType())
         self.fl = {"x": self.fx, "b": self.fb, "n": self.fn}
@@ -333,7 +331,7 @@ def base_problem(spec):
     u = universe()
     from unified_planning.shortcuts import (
         Problem, BoolType, IntType, UserType, Fluent, Object, InstantaneousAction, DurativeAction, Int, GT, Not,
-        GlobalStartTiming, StartTiming, EndTiming, MinimizeActionCosts, Always, Equals, Dot,
+        GlobalStartTiming, StartTiming, EndTiming, MinimizeActionCosts, Dot,
     )
 
     cls, var, kind = spec["cls"], spec["var"], spec["kind"]
@@ -768,7 +766,9 @@ def run(ctx):
                 base["P"] = P
             jobs.append({"id": len(jobs) + 1, "base": base, "pre": h["pre"], "post": h["post"]})
 
-        short = lambda h: len(h["pre"]) + len(h["post"]) <= 2
+        short = lambda h: len(h["pre"]) <= 1 and len(h["post"]) == 1
+        # share of the histories with two post-edits and no pre-edit
+        f02 = {"plain": 0.15 if q else 1.0, "cont": 0.05 if q else 0.5, "htn": 0.05 if q else 0.5, "ma": 0.3 if q else 1.0}
         # share of the longer (3-edit) histories replayed per class, and of the 2-edit ones for the subclasses
         f3 = {"plain": 0.02 if q else 0.2, "cont": 0.005 if q else 0.1, "htn": 0.005 if q else 0.1, "ma": 0.05 if q else 1.0}
         f2 = {"plain": 0.3 if q else 1.0, "cont": 0.03 if q else 1.0, "htn": 0.03 if q else 1.0, "ma": 0.3 if q else 1.0}
@@ -778,7 +778,7 @@ def run(ctx):
                     # every 2-edit history over the representative edits, a share of the others
                     if not (h["small"] or rng.random() < f2[cls]):
                         continue
-                elif rng.random() >= f3[cls]:
+                elif rng.random() >= (f02[cls] if not h["pre"] else f3[cls]):
                     continue
                 add(cls, h, rng.choice(["empty", "hand"]), rng.choice([1, 2]))
         nenum = len(jobs)
@@ -846,13 +846,14 @@ def run(ctx):
     ctx.cov["rule"] = (
         "T1: exhaustive BFS of MCModelClone within the stated bounds (repaired clone: real invariants; as-written clone: one "
         "configuration per uncopied field, counterexamples listed under t1). T2: connected edit histories emitted by TLC "
-        "(ModelCloneEnum: all with <= 1 pre-edit and 1 post-edit over the full universe, 3-edit ones over the representative "
-        "edits; shares per class stated in the driver) replayed on Problem, ContingentProblem, HierarchicalProblem and "
-        "MultiAgentProblem bases (empty and hand-built, two variants); T3: %d seeded random histories (<= 4 pre-edits, <= 6 "
-        "post-edits) on Gen/TGen problems and the hand-built bases.  One evaluation = one recorded call judged by "
-        "ModelCloneTrace; a history is counted non-trivial when some call in it is rejected." % nr
+        "(ModelCloneEnum; counts under histories_enumerated) replayed on Problem, ContingentProblem, HierarchicalProblem and "
+        "MultiAgentProblem bases (empty / hand-built / holding the universe's actions, two variants each): every history of <= 1 "
+        "pre-edit and 1 post-edit over the representative edits, and per class the shares %r of the other such histories, %r of "
+        "those with two post-edits and no pre-edit, %r of the remaining 3-edit ones; T3: %d seeded random histories (<= 4 "
+        "pre-edits, <= 6 post-edits) on Gen/TGen problems and the hand-built bases.  One evaluation = one recorded call judged "
+        "by ModelCloneTrace; a history is counted non-trivial when some call in it is rejected." % (f2, f02, f3, nr)
     )
-    ctx.cov["exhaustive"] = True
+    ctx.cov["exhaustive"] = not q  # the quick tier samples the enumerated histories
     ctx.assumptions += [
         "TLC and the CommunityModules Json reader are trusted; harness/upj.py project and repr() serve as full projections",
         "edits come from the fixed universe of spec/ModelClone.tla (fluents zz_x, zz_b, zz_n, objects, actions zz_a / zz_d, "
